@@ -129,6 +129,23 @@ def do_slices(unit, scratch, mutate=None):
                 body = body.replace(mutate[1], mutate[2], 1)
             body2, log1 = slicer.apply_R1(body)
             body2, log5 = slicer.apply_R5(body2, s.get('R5'))
+            if s.get('ret_real'):
+                # R7: `return <numeric literal>;` in a function returning cvm::real gets the conversion written out
+                # (the front end applies no converting constructor on return); same value, same type
+                def _r7(m):
+                    log5.append({'rule': 'R7', 'literal': m.group(1)})
+                    return 'return cvm::real(%s);' % m.group(1)
+                body2 = re.sub(r'return\s+(-?[0-9]+\.?[0-9]*(?:[eE][-+]?[0-9]+)?)\s*;', _r7, body2)
+            if s.get('R8'):
+                # R8: `= C ? A : B;` with class-type operands A, B (named in the spec) is written as a call to
+                # cvs_select(C, A, B) (stub: if (c) return a; return b;) -- the front end cannot take a
+                # conditional expression of class type
+                ids = '|'.join(re.escape(x) for x in s['R8'])
+
+                def _r8(m):
+                    log5.append({'rule': 'R8', 'cond': m.group(1), 'a': m.group(2), 'b': m.group(3)})
+                    return '= cvs_select(%s, %s, %s);' % (m.group(1), m.group(2), m.group(3))
+                body2 = re.sub(r'=\s*([^;?=]+?)\s*\?\s*(%s)\s*:\s*(%s)\s*;' % (ids, ids), _r8, body2)
             for a, b in s.get('subst', []):
                 # declared, logged token substitutions (R3/R6-style); must fire
                 if a not in body2:
